@@ -506,7 +506,8 @@ func init() {
 	d["HTTP.handleLeader"] = vrDriver{run: vrStatus("/leader")}
 	d["HTTP.DispatchPrivateWithoutAuth"] = vrDriver{run: vrStatus("/leader")}
 	d["HTTP.DispatchPrivate"] = vrDriver{run: func(s *vrSys, r *rand.Rand) {
-		if r.Intn(2) == 0 {
+		// wrong passwords are throttled with an exponentially growing sleep
+		if r.Intn(40) != 0 {
 			s.privateAuth("GET", "/leader", "robustirc", *networkPassword)
 		} else {
 			s.privateAuth("GET", "/leader", "robustirc", "wrong")
